@@ -61,6 +61,13 @@ pub trait CommandFdInjectionExt {
         &mut self,
         open_files: impl Iterator<Item = (ShellFd, openfiles::OpenFile)>,
     ) -> Result<(), error::Error>;
+
+    /// Arranges for the given file descriptor to be closed in the command's process.
+    ///
+    /// # Arguments
+    ///
+    /// * `fd` - The file descriptor the command must start without.
+    fn close_fd(&mut self, fd: ShellFd);
 }
 
 impl CommandFdInjectionExt for std::process::Command {
@@ -74,6 +81,8 @@ impl CommandFdInjectionExt for std::process::Command {
 
         Ok(())
     }
+
+    fn close_fd(&mut self, _fd: ShellFd) {}
 }
 
 /// Extension trait for arranging for commands to take the foreground.
